@@ -352,7 +352,7 @@ def driver(cinco, desc, seed, n_traces, length):
             for _ in range(length):
                 r = rng.random()
                 if r < 0.6:
-                    which = rng.choice(["dflt", "dl", "name", "pw", "hash", "blob", "bl", "sl", "dd", "api", "sub.tok", "vault", "vault.sec", "vault.inner.tok", "items", "sub.port", "vault.inner.n"])
+                    which = rng.choice(["dflt", "dl", "name", "pw", "hash", "blob", "bl", "sl", "dd", "api", "sub.tok", "vault", "vault.sec", "vault.inner.tok", "items", "sitems", "sub.port", "vault.inner.n"])
                     path, key = which.rsplit(".", 1) if "." in which else ("", which)
                     p = path.split(".") if path else []
                     if key in ("name", "api"):
@@ -378,7 +378,7 @@ def driver(cinco, desc, seed, n_traces, length):
                         v = D(sec=S(rnd_text(rng, 6, 10, edge=False)))
                     elif key in ("port", "n"):
                         v = {"t": "int", "i": rng.randint(0, 9999)}
-                    elif key == "items":
+                    elif key in ("items", "sitems"):
                         v = {"t": "list", "l": [D(u=S(rnd_text(rng, 0, 5)), pw=S(rnd_text(rng, 6, 10, edge=False))) if rng.random() < 0.7 else D(u=S("u")) for _ in range(rng.randint(0, 3))]}
                     ev = {"op": "Set", "p": p, "k": key, "v": v}
                 elif r < 0.85:
